@@ -239,7 +239,8 @@ def main(a):
             errors.append("monitor %s: %s" % (pl["monitor"], mon["error"]))
         # families of other properties whose cases also bear on this one (their violations of THIS property only)
         for mod2, fam2 in pl.get("extra_monitors", []):
-            m2 = run_monitor(fam2, mod2, a.tier, a.seed, src, a.jobs, want=prop)
+            # (always at the quick size: the family's own property runs it at full size in its thorough tier)
+            m2 = run_monitor(fam2, mod2, "quick", a.seed, src, a.jobs, want=prop)
             if m2.get("error"):
                 errors.append("monitor %s[%s]: %s" % (mod2, fam2, m2["error"]))
             mon["evaluations"] += m2["evaluations"]
